@@ -105,13 +105,13 @@ pub fn f2_step<const M: usize, const TOTAL: usize, const OP: u8, const CUT: bool
                 assert!(ptr_new == ptr_old, "[C12] deallocating a non-last block changed the arena");
             }
             assert!(COPY_CALLS == 0, "[C02] deallocate copied memory");
-            kani::cover!(is_last && ptr_new > ptr_old, "REACH: last block reclaimed");
-            kani::cover!(is_last && n_old > 0 && ptr_new > s + n_old, "REACH: reclaim rounded up to MIN_ALIGN past the block end");
-            kani::cover!(!is_last, "REACH: non-last block");
+            kani::cover!(is_last && ptr_new > ptr_old, "REACH: [dealloc] last block reclaimed");
+            kani::cover!(M == 1 || (is_last && n_old > 0 && ptr_new > s + n_old), "REACH: [dealloc] reclaim rounded up to MIN_ALIGN past the block end");
+            kani::cover!(!is_last, "REACH: [dealloc] non-last block");
         } else if failed {
             assert!(ptr_new == ptr_old, "[C09,C12] finger moved although the operation failed");
             assert!(COPY_CALLS == 0, "[C12] memory copied although the operation failed");
-            kani::cover!(!CUT, "REACH: operation failed");
+            kani::cover!(true, "REACH: [fail] operation failed");
         } else if let Some((p, len, n_new, a_new)) = res {
             assert!(p != 0, "[C01] null pointer returned");
             assert!(len >= n_new, "[C12] returned slice shorter than requested");
@@ -140,13 +140,13 @@ pub fn f2_step<const M: usize, const TOTAL: usize, const OP: u8, const CUT: bool
             if p == s {
                 assert!(COPY_CALLS == 0 || COPY_LEN == 0 || (COPY_SRC == s && COPY_DST == s), "[C02] block stayed but memory was copied elsewhere");
             }
-            kani::cover!(p == s, "REACH: returned in place");
-            kani::cover!(p != s && p < ptr_old, "REACH: moved into former free space");
-            kani::cover!(OP != OP_SHRINK || (p > s), "REACH: shrink moved the block up (reclaim)");
-            kani::cover!(OP != OP_SHRINK || (a_new > a_old && p != s), "REACH: shrink to a stricter alignment reallocated");
-            kani::cover!(OP != OP_GROW || (is_last && p < s && p + len > s), "REACH: grow extended in place (overlapping move)");
-            kani::cover!(OP != OP_GROW || (!is_last && p != s), "REACH: grow of a non-last block reallocated");
-            kani::cover!(OP != OP_GROW || (a_new > a_old), "REACH: grow to a stricter alignment");
+            kani::cover!(p == s, "REACH: [realloc] returned in place");
+            kani::cover!(p != s && p < ptr_old, "REACH: [realloc] moved into former free space");
+            kani::cover!(OP != OP_SHRINK || (p > s), "REACH: [shrink] shrink moved the block up (reclaim)");
+            kani::cover!(OP != OP_SHRINK || (a_new > a_old && p != s), "REACH: [shrink] shrink to a stricter alignment reallocated");
+            kani::cover!(OP != OP_GROW || (is_last && p < s && p + len > s), "REACH: [grow] grow extended in place (overlapping move)");
+            kani::cover!(OP != OP_GROW || (!is_last && p != s), "REACH: [grow] grow of a non-last block reallocated");
+            kani::cover!(OP != OP_GROW || (a_new > a_old), "REACH: [grow] grow to a stricter alignment");
         }
         kani::cover!(true, "REACH: end of harness");
     }
